@@ -493,6 +493,35 @@ def _div(x, y, npf):
     return SymReal(x / y, npf)
 
 
+class RelaxReal(SymReal):
+    """sound relaxation of binary64: every arithmetic operation returns exact*(1+d) with a fresh |d| <= 2^-53 (valid while results are
+    normal doubles).  Values produced by jesse's decimal helpers are exact (the stubs build them without a delta)."""
+    __slots__ = ()
+    counter = [0]
+    EPS = 2.0 ** -53
+
+    def _bin(self, o, op, swapped=False):
+        r = SymReal._bin(self, o, op, swapped)
+        if isinstance(r, SymReal):
+            RelaxReal.counter[0] += 1
+            d = z3.Real('delta!%d' % RelaxReal.counter[0])
+            c = cur()
+            c.solver.add(d >= -_q(RelaxReal.EPS), d <= _q(RelaxReal.EPS))
+            c.model = None
+            return RelaxReal(r.t * (1 + d), r.npf)
+        return r
+
+    def _extra(self):
+        return (self.npf,)
+
+
+def relax(x):
+    """the relaxed-float view of a symbolic input (plain numbers are returned unchanged: a concrete run uses real floats)"""
+    if isinstance(x, SymReal) and not isinstance(x, RelaxReal):
+        return RelaxReal(x.t, x.npf)
+    return x
+
+
 class SymInt(_SymNum):
     __slots__ = ('t',)
 
@@ -738,11 +767,27 @@ def sabs(a):
 # path context
 
 
+def _plain(x, depth=0):
+    """info attached to a violation travels through the worker queue and into JSON: keep plain data only (a proxy that
+    got into it - e.g. a reported value that became symbolic after a source change - is kept as its repr)"""
+    if isinstance(x, (str, bool, int, float)) or x is None:
+        return x
+    if isinstance(x, (_np.floating, _np.integer, _np.bool_)):
+        return x.item()
+    if depth > 6:
+        return repr(x)
+    if isinstance(x, dict):
+        return {str(k): _plain(v, depth + 1) for k, v in x.items()}
+    if isinstance(x, (list, tuple, set)):
+        return [_plain(v, depth + 1) for v in x]
+    return repr(x)
+
+
 class Violation:
     def __init__(self, label, model, info=None):
         self.label = label
         self.model = model
-        self.info = info or {}
+        self.info = _plain(info or {})
 
     def as_dict(self):
         return {'label': self.label, 'model': self.model, 'info': self.info}
